@@ -240,13 +240,19 @@ func (t *Table) AddLocalIndexes(input []*types.LocalSecondaryIndex) error {
 	return nil
 }
 
-func (t *Table) parseStartKey(schema keySchema, startkeyAttr map[string]*types.Item) string {
-	startKey := ""
-	if len(startkeyAttr) != 0 {
-		startKey, _ = schema.GetKey(t.AttributesDef, startkeyAttr)
+// parseStartKey returns the key string named by the exclusive start key and whether there is one;
+// the key string itself may be empty.
+func (t *Table) parseStartKey(schema keySchema, startkeyAttr map[string]*types.Item) (string, bool) {
+	if len(startkeyAttr) == 0 {
+		return "", false
 	}
 
-	return startKey
+	startKey, err := schema.GetKey(t.AttributesDef, startkeyAttr)
+	if err != nil {
+		return "", false
+	}
+
+	return startKey, true
 }
 
 func getPrimaryKey(index *index, k string) (string, bool) {
@@ -284,7 +290,7 @@ func afterStartKey(k, pk, startIndexKey, startKey string, forward bool) bool {
 	return false
 }
 
-func prepareSearch(input *QueryInput, index *index, k, startIndexKey, startKey string) (string, bool) {
+func prepareSearch(input *QueryInput, index *index, k, startIndexKey, startKey string, hasPosition bool) (string, bool) {
 	pk, ok := getPrimaryKey(index, k)
 	if !ok {
 		return pk, ok
@@ -294,7 +300,7 @@ func prepareSearch(input *QueryInput, index *index, k, startIndexKey, startKey s
 		return pk, true
 	}
 
-	if startIndexKey == "" {
+	if !hasPosition {
 		// the start key has no known position in this index: wait for the item itself
 		if pk == startKey {
 			input.started = true
@@ -358,15 +364,17 @@ func (t *Table) SearchData(input QueryInput) ([]map[string]*types.Item, map[stri
 	exclusiveStartKey := input.ExclusiveStartKey
 	index, sortedKeys := t.fetchQueryData(input)
 
-	startKey := t.parseStartKey(t.KeySchema, exclusiveStartKey)
-	input.started = startKey == ""
-	startIndexKey := startKey
+	startKey, hasStartKey := t.parseStartKey(t.KeySchema, exclusiveStartKey)
+	input.started = !hasStartKey
+	startIndexKey, hasPosition := startKey, true
 
 	if index != nil {
-		startIndexKey = t.parseStartKey(index.keySchema, exclusiveStartKey)
+		startIndexKey, _ = t.parseStartKey(index.keySchema, exclusiveStartKey)
 		if startIndexKey == "" {
 			startIndexKey = index.refs[startKey]
 		}
+
+		hasPosition = startIndexKey != ""
 	}
 	last := map[string]*types.Item{}
 	sortedKeysSize := int64(len(sortedKeys))
@@ -381,7 +389,7 @@ func (t *Table) SearchData(input QueryInput) ([]map[string]*types.Item, map[stri
 	for pos := range sortedKeys {
 		k := GetKeyAt(sortedKeys, sortedKeysSize, int64(pos), forward)
 
-		pk, ok := prepareSearch(&input, index, k, startIndexKey, startKey)
+		pk, ok := prepareSearch(&input, index, k, startIndexKey, startKey, hasPosition)
 		if !ok {
 			scanned++
 			continue
